@@ -398,6 +398,8 @@ func (w *walker) field(prefix string, fdp *descriptorpb.FieldDescriptorProto, an
 		"msgmap": fdp.GetType() == descriptorpb.FieldDescriptorProto_TYPE_MESSAGE && mapEntries[tn],
 		"parmap": parentMapEntry,
 		"chain":  chainOf(own, anc),
+		"hasdefval": fdp.DefaultValue != nil,
+		"defval":    fdp.GetDefaultValue(),
 	}
 	return map[string]any{"k": "field", "name": name, "in": in}
 }
@@ -658,7 +660,7 @@ func viewsCase(in map[string]any) map[string]any {
 	lf := res[0]
 	if len(injs) > 0 {
 		// feed the compiled proto back with the extra overrides (descriptor-proto input form)
-		fdp := proto.Clone(protodesc.ToFileDescriptorProto(lf)).(*descriptorpb.FileDescriptorProto)
+		fdp := proto.Clone(protoutil.ProtoFromFileDescriptor(lf)).(*descriptorpb.FileDescriptorProto)
 		fdp.SourceCodeInfo = nil
 		if missing := applyInjections(fdp, injs); len(missing) > 0 {
 			return map[string]any{"err": "injection target not found: " + strings.Join(missing, ","), "stage": "inject"}
@@ -676,7 +678,9 @@ func viewsCase(in map[string]any) map[string]any {
 		}
 		lf = res2[0]
 	}
-	fdp := protodesc.ToFileDescriptorProto(lf)
+	// the compiled proto itself (NOT protodesc.ToFileDescriptorProto(lf), which would rebuild it from the
+	// linker's descriptor views and so hide a wrong view, e.g. of a default value)
+	fdp := protoutil.ProtoFromFileDescriptor(lf)
 	out := map[string]any{}
 	// the runtime's view of the compiled proto; dependencies are resolved against the linker's files
 	deps := &protoregistry.Files{}
@@ -694,7 +698,7 @@ func viewsCase(in map[string]any) map[string]any {
 			if regErr != nil {
 				return
 			}
-			rd, err := protodesc.NewFile(protodesc.ToFileDescriptorProto(d), deps)
+			rd, err := protodesc.NewFile(protoutil.ProtoFromFileDescriptor(d), deps)
 			if err != nil {
 				regErr = fmt.Errorf("dependency %s: %w", d.Path(), err)
 				return
